@@ -13,7 +13,8 @@ RULE = ("(a) enumerated: every unordered pair of calls from {store_metadata(p,F,
         "store_metadata(p,default,v1), retrieve_metadata(p,F), retrieve_metadata(p,default), delete_metadata(p,F), "
         "delete_metadata(p) [all], delete_object(p)} x 3 start states {p bound / no documents, p bound / F and default "
         "present, p unbound / documents present}, run as 2 threads under every schedule with <=1 preemption, and with "
-        "<=2 preemptions for the pairs that contain a delete (quick) / all pairs (thorough); (b) Hypothesis: 3-thread "
+        "<=2 preemptions for the pairs that contain a delete (quick) / all pairs (thorough); holder / second / third "
+        "triples and holder / waiter / passer-by programs on the document lock (see C07); (b) Hypothesis: 3-thread "
         "programs with generated schedules of <=4 preemptions. Oracle: outcome vector + final abstract state equal "
         "those of some sequential order, with the widening the property states for (lock-free) readers: a reader may return any complete "
         "version it returns in some sequential order, or a not-found error (ValueError / FileNotFoundError) when the "
@@ -60,6 +61,14 @@ def enumerate_cases(tier):
                    calls=[{"op": "smeta", "pid": "p", "fmt": F, "d": 1}, {"op": "smeta", "pid": "p", "fmt": F, "d": 2},
                           {"op": "smeta", "pid": "q", "fmt": F, "d": 0}],
                    preemptions=[list(x) for x in c07.hwp_preemptions(a)], family="holder-waiter-passer-by")
+    # holder / second / third triples (see C07): the holder is parked, the two others run until they block or return
+    t_holds = (2, 5, 8, 11, 14, 18) if tier == "quick" else range(1, 26)
+    for sname in (("bound,docs",) if tier == "quick" else tuple(STARTS)):
+        for h in (0, 5, 6, 7):                       # store(F,v1), delete(F), delete(all), delete_object
+            for w in range(len(MENU)):
+                for p3 in range(len(MENU)):
+                    yield dict(BASE, start_name=sname, start=STARTS[sname], calls=[MENU[h], MENU[w], MENU[p3]], mode="triple",
+                               holds=list(t_holds), family="holder-second-third")
     # ... and with a DELETER parked between its existence check and its removal
     docs = [{"op": "smeta", "pid": "p", "fmt": F, "d": 0}, {"op": "smeta", "pid": "p", "fmt": None, "d": 0}]
     for waiter in ({"op": "dmeta", "pid": "p", "fmt": F}, {"op": "dmeta", "pid": "p", "fmt": None}):
@@ -161,6 +170,16 @@ def run_case(case, ctx):
         if confl and n > 30:
             ctx.sample({"start": case["start_name"], "program": [conc.op_pattern(c, world) for c in calls], "schedules_explored": n,
                         "max_preemptions": case.get("max_preempt", 1)})
+    elif case["mode"] == "triple":
+        for a in case["holds"]:
+            pre = c07.hwp_preemptions(a)
+            ex = conc.run_program(world, calls, [0, 1, 2], pre)
+            if ex.used_preemptions == 0:
+                break
+            ctx.count()
+            judge(ctx, world, case, calls, [0, 1, 2], [list(x) for x in pre], ex)
+            ctx.nontrivial([case["start_name"], [conc.op_pattern(c, world) + str(c.get("d")) for c in calls], a, ex.outcomes])
+        ctx.classify("holder-second-third-programs")
     else:
         ex = conc.run_program(world, calls, case["order"], [tuple(p) for p in case["preemptions"]])
         ctx.count()
